@@ -72,6 +72,8 @@ def run(tier, seed):
     run = Run("C04", tier, seed)
     rng, q = run.rng, run.quick
     loader.load()
+    from . import typing_common as tc
+    tc.mc_structure(run, "C04", geoms_quick=(1, 2, 3))
     recipes = generic_recipes(rng, q) + kit_recipes(rng, q)
     traces = [exec_typing(r) for r in recipes]
     acc = 0
